@@ -380,7 +380,9 @@ func BadNames(class, root string) []string {
 	case "trailingNewline":
 		return []string{"u1\n", "u1\n\n"}
 	case "nonAscii":
-		return []string{"\xc3\xbc1", "u1\xff", "ué"}
+		// incl. the letters that Unicode case folding maps onto ASCII (KELVIN SIGN -> k, LONG S -> s), look-alikes and
+		// combining marks
+		return []string{"\xc3\xbc1", "u1\xff", "ué", "mar\u212a", "\u212aarl", "ro\u017fe", "\uff55\uff11", "\u0430dmin", "u1\u0301", "\u0131d", "u\u00a01"}
 	}
 	panic("unknown bad-name class " + class)
 }
